@@ -170,7 +170,7 @@ func init() {
 		Level: "exploration", 
 		Rule: "one case = one history of 5-60 operations (New named/anonymous/colliding with options, 11 With* calls, 11 Set* calls incl. writers, skip, context keys) applied to random loggers of a growing forest (two detached roots and a fresh default logger); a reference tree model is advanced in lock-step. " +
 			"After EVERY operation: (isolation, model-free) every logger other than the receiver of a Set* emits byte-identical WriteThru probe output to the same destination as before; (model) every logger's Level/JSONMode/ColorMode/Skip/Name/Parent/Root and its decoded probe (format class, name, timestamp in the modelled zone/layout, attributes, destination incl. redirected stdout) equal the model; " +
-			"context keys through a PrintContext probe; Each/Sublogger against the model subtree. Sub-workload deflevel (own pristine processes, both process modes): package New starts parentless, colored, at the package default level (Warn in production, Debug under go test) and follows SetLevel - also when the default logger's own level was set to the next argument first (a Set on one logger) and in production processes whose environment carries DEBUG with a value that says no. Names include ones as long as an import path; Sublogger is also asked for a name BEFORE it exists, from every ancestor, and again after its creation. non-trivial = completed history; distinct = by history big: trees that are big in one dimension (4090-9000 direct children of one logger, anonymous or named; derivation chains of 99-1000 links; bushy trees of 1600-5600 loggers) against the creation history kept by the harness: Each from several starting points visits every logger of the subtree exactly once at its depth, Parent/Root are those of the creation, Sublogger(name) and New(name) hand out the existing child (the late-coming anonymous ones included)",
+			"context keys through a PrintContext probe; Each/Sublogger against the model subtree. Sub-workload deflevel (own pristine processes, both process modes): package New starts parentless, colored, at the package default level (Warn in production, Debug under go test) and follows SetLevel - also when the default logger's own level was set to the next argument first (a Set on one logger) and in production processes whose environment carries DEBUG with a value that says no or whose command line carries an argument that starts with -bench. Names include ones as long as an import path; Sublogger is also asked for a name BEFORE it exists, from every ancestor, and again after its creation. non-trivial = completed history; distinct = by history big: trees that are big in one dimension (4090-9000 direct children of one logger, anonymous or named; derivation chains of 99-1000 links; bushy trees of 1600-5600 loggers) against the creation history kept by the harness: Each from several starting points visits every logger of the subtree exactly once at its depth, Parent/Root are those of the creation, Sublogger(name) and New(name) hand out the existing child (the late-coming anonymous ones included)",
 		Assumptions: []string{"default flags (LlocalTime set): an unset UTC mode means the instant's own zone", "SetTimeFormat is only called with explicit non-empty layouts"},
 		Floors:      map[string]int64{"operations": 2000, "isolation_comparisons": 10000, "model_comparisons": 10000, "lookups": 100, "default_level_checks": 10, "big_tree_loggers": 20000},
 		Jobs: func(tier string, seed int64) []Job {
@@ -185,6 +185,10 @@ func init() {
 					continue
 				}
 				js = append(js, Job{Sub: "deflevel", Mode: "prod", From: 100 + i, To: 101 + i, Env: []string{"DEBUG=" + v}})
+			}
+			// production processes that carry an argument starting with -bench (a flag of the application's own): still Warn
+			for i := 0; i < pick(tier, 2, 8); i++ {
+				js = append(js, Job{Sub: "deflevel", Mode: "prod", From: 200 + i, To: 201 + i, Args: []string{"-benchlabel=nightly"}})
 			}
 			return js
 		},
